@@ -33,7 +33,8 @@ All == 1..Len(rows)
 Sum(T, f(_)) == FoldSet(LAMBDA i, acc : acc + f(i), 0, T)
 Wt(uw, i) == IF uw THEN Wof(rows[i]) ELSE 1
 
-Metrics == <<"sel", "tpr", "fpr", "fnr", "tnr", "acc", "prec", "zol", "smean">>
+Metrics == <<"sel", "tpr", "fpr", "fnr", "tnr", "acc", "prec", "zol", "smean", "precn">>
+\* "precn" can be undefined (NaN) on a non-empty group; NaN cells are skipped by every aggregate exactly like empty combinations
 \* "smean" is a SIGNED metric: the weighted mean of the per-row score (2*pred - 1) * (1 + y) in {-2, -1, 1, 2}
 NonNegMetrics == {"sel", "tpr", "fpr", "fnr", "tnr", "acc", "prec", "zol"}
 MetricSet == {Metrics[k] : k \in 1..Len(Metrics)}
@@ -55,6 +56,7 @@ MetricOn(m, T, uw) ==
        [] m = "prec" -> R0(tp, tp + fp)
        [] m = "zol"  -> Frac(fp + fn, tp + fn + fp + tn)
        [] m = "smean" -> Frac(2 * tp + fp - 2 * fn - tn, tp + fn + fp + tn)
+       [] m = "precn" -> IF tp + fp = 0 THEN Undef ELSE Frac(tp, tp + fp)       \* precision, UNDEFINED (NaN) without predicted positives
 
 Strata == {c \in 1..S : \E i \in All : Cof(rows[i]) = c}         \* observed control values
 Groups == {g \in 1..G : \E i \in All : Gof(rows[i]) = g}         \* observed sensitive values
@@ -128,7 +130,7 @@ LawAggregates == rows # <<>> => \A m \in NonNegMetrics, c \in Strata, uw \in BOO
     /\ Le(DiffBetween(m, c, uw), Mul(Two, DiffOverall(m, c, uw)))
 \* sample-weighted means of a per-row quantity: the overall value is a convex combination of the cells
 \* for every metric, signed ones included: difference >= 0, between <= 2 * to_overall, difference(between) = max - min
-LawSigned == rows # <<>> => \A m \in MetricSet, c \in Strata, uw \in BOOLEAN :
+LawSigned == rows # <<>> => \A m \in MetricSet \ {"precn"}, c \in Strata, uw \in BOOLEAN :
     /\ Le(Zero, DiffBetween(m, c, uw)) /\ Le(Zero, DiffOverall(m, c, uw))
     /\ Le(DiffBetween(m, c, uw), Mul(Two, DiffOverall(m, c, uw)))
 LawWeightedMean == rows # <<>> => \A m \in {"sel", "acc", "zol", "smean"}, c \in Strata, uw \in BOOLEAN :
